@@ -1504,7 +1504,7 @@ func (ex *Exec) needConcrete(st *State, operands []ssa.Value, bound int) bool {
 }
 
 func cellsBound(st *State, vals ...Value) int {
-	b := 4
+	b := 12
 	for _, v := range vals {
 		if s, ok := v.(SliceV); ok && s.Obj != 0 {
 			if c, ok := st.heap[s.Obj].Val.(CellsV); ok && len(c.C) > b {
